@@ -283,7 +283,7 @@ const RefReplay& ReplayCache::Get(const uint256& tip)
 {
     auto it = m_cache.find(tip);
     if (it != m_cache.end()) return it->second;
-    if (m_cache.size() > 64) m_cache.clear();
+    if (m_cache.size() > 400) m_cache.clear(); // callers must not hold a reference across more than a few hundred Get() calls
     return m_cache.emplace(tip, m_l.Replay(tip)).first->second;
 }
 
